@@ -94,6 +94,7 @@ func (c *Client) receive() ([]Message, error) {
 			_ = c.Disconnect()
 			return nil, err
 		} else if i == 0 {
+			_ = c.Disconnect()
 			return nil, ErrRscpInvalidFrameLength
 		}
 
@@ -102,6 +103,8 @@ func (c *Client) receive() ([]Message, error) {
 			// frame not complete
 			continue
 		case err != nil:
+			// the stream position is unknown after a protocol error, do not reuse the connection
+			_ = c.Disconnect()
 			return nil, err
 		case m != nil:
 			// frame complete
